@@ -50,10 +50,12 @@ type Request struct {
 
 func NewRequest(id string, priority float64, clock clock.Clock) *Request {
 	return &Request{
-		ID:           id,
-		priority:     priority,
-		timestamp:    clock.Now(),
-		doneCh:       make(chan struct{}),
+		ID:        id,
+		priority:  priority,
+		timestamp: clock.Now(),
+		// buffered: the roll-over pass must be able to hand the slot over even when the
+		// waiter has not reached its select yet (otherwise the request is popped and lost)
+		doneCh:       make(chan struct{}, 1),
 		processMutex: sync.Mutex{},
 		isProcessed:  false,
 	}
